@@ -1006,3 +1006,26 @@ pub(crate) fn retry_if_interrupted(mut f: impl FnMut() -> isize) -> io::Result<i
         }
     }
 }
+
+/// Verification accessors (compiled only with `--cfg quinn_rs_quinn_verif`): thin wrappers that
+/// make private items reachable from `crate::verif_hooks`; no logic of their own.
+#[cfg(quinn_rs_quinn_verif)]
+pub(crate) mod verif_access {
+    use super::*;
+
+    pub(crate) fn prepare_msg(
+        transmit: &Transmit<'_>,
+        dst_addr: &socket2::SockAddr,
+        hdr: &mut libc::msghdr,
+        iov: &mut libc::iovec,
+        ctrl: &mut cmsg::Aligned<[u8; cmsg::LEN]>,
+        encode_src_ip: bool,
+        sendmsg_einval: bool,
+    ) {
+        super::prepare_msg(transmit, dst_addr, hdr, iov, ctrl, encode_src_ip, sendmsg_einval)
+    }
+
+    pub(crate) fn set_sendmsg_einval(state: &UdpSocketState) {
+        state.set_sendmsg_einval()
+    }
+}
